@@ -357,4 +357,5 @@ func runC03(c *Ctx) {
 		}
 		c.Eval(true, op)
 	})
+	runC03S3(c) // extension round s3 (c03_s3.go): tag-heavy queues, scripted Job draws, next(false)
 }
